@@ -113,7 +113,7 @@ def _worker(task):
     modname, part, nparts, seed, tier = task
     mod = common.module(modname)
     sc = G.budget_scale(mod)
-    P = dict((k, G.scaled(v, sc)) for k, v in PARAMS[tier].items())
+    P = G.scaled_params(PARAMS[tier], sc)
     fnd, st = G.Findings(), G.Stats()
     rf = G.relfile(mod)
     VE = G.VE
